@@ -231,6 +231,9 @@ pub axiom fn m_prime_fermat(a: int)
 
 def invsqrt_unit():
     fq = field_params("fq")
+    from . import arksqrt as _ak
+    _P = fq["P"]
+    _sk = dict(G=pow(_ak.ZETA, (_P - 1) >> 47, _P), M=(_P - 1) >> 47, ZZ=_ak._zz_from_source())
     stubs, lem = opsmod.stub_items("fq")
     items = list(stubs)
     P = "fq_p()"
@@ -260,9 +263,44 @@ def invsqrt_unit():
                 assert((((*limb >> i) & 1) as int) * w == (if ((*limb >> i) & 1) == 1 {{ w }} else {{ 0 }})) by(nonlinear_arith)
                     requires ((*limb >> i) & 1) == 0 || ((*limb >> i) & 1) == 1;"""},
         before_tail=f"assert({S_}.take({S_}.len() as int) =~= {S_});")]))
-    # our_sqrt: constant-time Tonelli-Shanks; its functional contract is M-SQRT (assumed), see DESIGN C09
-    items.append(Item(INV, "impl Fq", [Fn("our_sqrt", requires="is_sq(self.val())", ensures="fsq(r.val()) == self.val()")],
-                      mode="stub", proved_in=""))
+    items.append(Item("src/fields/fq/u64/wrapper.rs", "impl ConditionallySelectable for Fq", [Fn("conditional_select")], mode="stub",
+                      proved_in=("wrap64_fq", "wrap32_fq"), extra_assoc="    open spec fn cs_wf(&self) -> bool { true }"))
+    items.append(Item("src/fields/fq/u64/wrapper.rs", "impl ConstantTimeEq for Fq", [Fn("ct_eq")], mode="stub", proved_in=("wrap64_fq", "wrap32_fq"),
+                      extra_assoc="    open spec fn ct_wf(&self) -> bool { true }\n    open spec fn ct_eq_spec(&self, other: &Self) -> bool { self.val() == other.val() }"))
+    # our_sqrt: constant-time Tonelli-Shanks (hash-to-curve draft, appendix I.4).  Outer loop invariant ts_inv(x, z, t, c, i):
+    # z^2 == t x, t^(2^(i-1)) == 1, c^(2^(i-1)) == -1;  inner loop: b == t^(2^(j-1)).  R29 turns the reversed range into a while loop.
+    XV = "self.val()"
+    items.append(Item(INV, "impl Fq", [Fn(
+        "our_sqrt", props=("C09", "C12"),
+        requires="is_sq(self.val()), self.val() != 0",
+        ensures="fsq(r.val()) == self.val()",
+        preamble=bu + f""" proof {{
+                let y_ = choose|y: int| in_fq(y) && #[trigger] fsq(y) == {XV};
+                assert(fmul(y_, y_) == {XV});
+                assert(is_sq_({XV}));
+                assert(p2(47) == 140737488355328 && p2(46) == 70368744177664) by(compute_only);
+            }}""",
+        subst=[("R27", r'(let mut c = Fq::QUADRATIC_NON_RESIDUE_TO_TRACE;)', r"""\1 proof {
+                lemma_ts_init(self.val(), xp(self.val(), ((M_() - 1) / 2) as nat), t.val(), z.val(), c.val()); }""")],
+        loops={0: f"""invariant 1 <= i_ <= 47, ts_inv({XV}, z.val(), t.val(), c.val(), i_ as nat), b.val() == t.val(), in_fq({XV}),
+                    decreases i_""",
+               1: f"""invariant 2 <= i <= 47, 1 <= _j <= i - 1, in_fq(t.val()), b.val() == xp(t.val(), p2((_j - 1) as nat) as nat),"""},
+        loops_begin={0: f"broadcast use fq_abs; let ghost z0_ = z.val(); let ghost t0_ = t.val(); let ghost c0_ = c.val(); proof {{ assert(p2(0) == 1) by(compute_only); assert(xp(t0_, 1) == t0_) by {{ reveal_with_fuel(mpow, 2); lemma_fmul_one_r(t0_); }} }}",
+                     1: "broadcast use fq_abs; let ghost b0_ = b.val();"},
+        loops_end={0: f"lemma_ts_step({XV}, z0_, t0_, c0_, i as nat, xp(t0_, p2((i - 2) as nat) as nat), z.val(), c.val(), t.val());",
+                   1: f"""let e_ = p2((_j - 1) as nat) as nat;
+                          lemma_p2_nat((_j - 1) as nat); lemma_p2_add((_j - 1) as nat, 1); assert(p2(1) == 2) by(compute_only);
+                          assert(((_j - 1) as nat) + 1 == _j as nat);
+                          assert(p2(_j as nat) == e_ + e_);
+                          lemma_mpow_add(fq_p(), t.val(), e_, e_);
+                          assert(b.val() == fmul(b0_, b0_));
+                          assert(b.val() == xp(t.val(), p2(_j as nat) as nat));"""},
+        before_tail=f"""assert(p2(0) == 1) by(compute_only);
+                        assert(xp(t.val(), 1) == t.val()) by {{ reveal_with_fuel(mpow, 2); lemma_fmul_one_r(t.val()); }}
+                        lemma_fmul_one_r({XV});""")]))
+    items.append(Item("src/fields/fq.rs", "impl Fq", [Fn("TRACE_MINUS_ONE_DIV_TWO_LIMBS", as_const=True, props=("C09", "C17"),
+                      ensures="limbs_val(Fq::TRACE_MINUS_ONE_DIV_TWO_LIMBS@) == ((M_() - 1) / 2) as nat", preamble="reveal_with_fuel(limbs_val, 6);")]))
+    items.append(Item("src/fields/fq.rs", "impl Fq", [Fn("TWO_ADICITY", as_const=True, props=("C09", "C17"), ensures="Fq::TWO_ADICITY == 47")]))
     items.append(Item("src/fields/fq.rs", "impl Fq", [Fn("MODULUS_MINUS_ONE_DIV_TWO_LIMBS", as_const=True, props=("C09", "C17"),
                       ensures="limbs_val(Fq::MODULUS_MINUS_ONE_DIV_TWO_LIMBS@) == QM1H()", preamble="reveal_with_fuel(limbs_val, 6);")]))
     items.append(Item(INV, "impl Fq", [Fn(
@@ -276,10 +314,18 @@ def invsqrt_unit():
                 m_prime_euler(x);
                 lemma_fmul_assoc(ZETA_(), x, den.val());
                 assert(fmul(ZETA_(), 1) == ZETA_());
+                assert(x != 0);
+                if fmul(ZETA_(), x) == 0 { m_prime_no_zero_div(ZETA_(), x); }
+                assert(fmul(ZETA_(), x) != 0);
             } }""")]))
     u = Unit(name="min_invsqrt",
-             preludes=base_preludes() + [("curve_spec.rs", None), ("ladder_lemmas.rs", None), ("pow_lemmas.rs", None)],
+             preludes=base_preludes() + [("subtle.rs", None), ("curve_spec.rs", None), ("ladder_lemmas.rs", None), ("pow_lemmas.rs", None), ("sarkar_lemmas.rs", _sk), ("ts_lemmas.rs", None)],
              items=items, lemmas=lem + INVSQRT_LEMMAS + """
+// QUADRATIC_NON_RESIDUE_TO_TRACE has order exactly 2^47: its 2^46-th power is -1 (unit consts, c17_fq_QNR_TO_TRACE, on the source literal)
+impl Fq {
+    #[verifier::external_body]
+    pub exec const QUADRATIC_NON_RESIDUE_TO_TRACE: Fq ensures xp(Fq::QUADRATIC_NON_RESIDUE_TO_TRACE.val(), 70368744177664) == M1_() { Fq::dummy_() }
+}
 #[verifier::external_body]
 pub exec const ZETA: Fq ensures ZETA.val() == ZETA_() { Fq::dummy_() }
 """, params=fq)
